@@ -404,6 +404,21 @@ def run(tier, seed):
         gap_obs.append(obs)
 
     vp.log(f"[C10] gap scenarios done {time.time()-t0:.0f}s")
+    # ---- 5. the real backends: WriteBehind<RocksDB> / WriteBehind<Fjall>, several writer sessions per directory,
+    # batches of ordinary cells, set members and the single cell of a column whose key and discriminant encode to
+    # nothing (often alone in a batch), a value of several megabytes now and then (mid-stream flush); the store is
+    # reopened through the raw KvDatabase API and must hold the sequential fold (WriteBehindTrace, nolog runs)
+    bdb = vp.build(features="backends")
+    btmp = vp.workdir(PID, "backends_tmp")
+    for i in range(2 if quick else 12):
+        trb = os.path.join(wd, f"backends_{i}.ndjson")
+        pb = vp.run([os.path.join(bdb, "wb_backends"), "--out", trb, "--seed", str(seed * 50 + i), "--runs", "40" if quick else "150",
+                     "--tmp", btmp], timeout=1800, check=False)
+        if pb.returncode != 0:
+            verdict.violation(f"process died (rc={pb.returncode}) writing through WriteBehind over a real backend: {(pb.stdout or '')[-300:]}",
+                              {"property": PID, "origin": "real backends", "seed": seed * 50 + i, "output": (pb.stdout or '')[-3000:]})
+            continue
+        traces.append({"trace": trb, "origin": f"real backends seed={seed * 50 + i}", "runs": 80 if quick else 300})
     # ---- verdict: TLC validates every recorded run against the P-layer spec
     summary = {"events": 0, "trace_states": 0, "stats": {}, "viol_by_kind": {}}
     results = classify(traces, verdict, summary)
